@@ -108,7 +108,9 @@ func Family(o FamilyOpts) []*Model {
 	}
 	if o.Conds {
 		members = append(members, relChoice{This(), []Restr{{Type: "user", Cond: "cx"}}},
-			relChoice{This(), []Restr{{Type: "user"}, {Type: "group", Rel: "member", Cond: "cx"}}})
+			relChoice{This(), []Restr{{Type: "user"}, {Type: "group", Rel: "member", Cond: "cx"}}},
+			// a direct user and the conditioned typed wildcard: two rows for one (object, relation)
+			relChoice{This(), []Restr{{Type: "user"}, {Type: "user", Wildcard: true, Cond: "cx"}}})
 	}
 	parents := [][]Restr{{{Type: "doc"}}, {{Type: "group"}}, {{Type: "doc"}, {Type: "group"}}}
 	if o.Conds {
